@@ -145,7 +145,8 @@ class AggregationRule(object):
 
       regex_pattern_parts.append(regex_part)
 
-    regex_pattern = '\\.'.join(regex_pattern_parts) + '$'
+    # \Z, not $: "$" also matches before a trailing newline
+    regex_pattern = '\\.'.join(regex_pattern_parts) + r'\Z'
     self.regex = re.compile(regex_pattern)
 
   def build_template(self):
